@@ -195,4 +195,6 @@ DESIGNED = [
     [('d', 'd', None), ('d/up', 'l', '..'), ('d/f', 'f', None), ('loop', 'l', 'loop'), ('e', 'd', None), ('e/side', 'l', '../d'), ('e/g', 'f', None)],
     [('p1', 'd', None), ('p1/x', 'd', None), ('p1/x/f', 'f', None), ('p1/lnk', 'l', '../outside'), ('p2', 'd', None), ('p2/x', 'd', None), ('p2/x/f', 'f', None),
      ('p2/lnk', 'l', '../outside'), ('outside', 'd', None), ('outside/x', 'd', None), ('outside/x/secret', 'f', None)],
+    [('p', 'd', None), ('p/a', 'd', None), ('real', 'd', None), ('real/x', 'f', None), ('real/r', 'd', None), ('real/r/x', 'f', None),
+     ('p/a/q', 'l', '../../real'), ('p/a/d', 'd', None), ('p/a/d/x', 'f', None)],
 ]
